@@ -462,6 +462,9 @@ func (f *fctx) applyContract(callee *ssa.Function, con *Contract, args []Term, p
 	// additional cases: their ensures hold for arguments of the case's shape
 	// that satisfy the case's own requires and split ranges
 	for _, cc := range con.Cases {
+		if cc.Local {
+			continue
+		}
 		cenvPre := f.contractEnv(cc, callee, args, nil, pre, pre)
 		var guards []Term
 		guards = append(guards, preAll)
